@@ -14,7 +14,9 @@ Inductive c03_fact :=
     (* the pending custody transfer named by an approve/confirm message of this transaction:
        approvals so far by LISTED custodians, number of custodians, required percentage *)
 | FRotate (owner new : Z) (proof_ok : bool)
-| FRotateRR (owner new : Z) (holder_amount supply : Z).
+| FRotateRR (owner new : Z) (holder_amount supply : Z)
+| FPool (share_denom native_denom : string) (keep : Z).
+    (* a staking pool's share token: staking x of the native denom mints x * keep / 10^18 shares *)
 
 (* inputs of the handler model for single-message transactions of a modelled kind *)
 Record c03_model := mkModel {
@@ -211,6 +213,21 @@ Definition claim_clause (c : c03_case) (skip_kind : string) (e : claim_row) : li
   | None => [String.append "claim-" (row_kind e)]
   end.
 
+(* value (in native units of [d]) of the staked shares account [o] gained in this step *)
+Definition share_credit (c : c03_case) (o : Z) (d : string) : Z :=
+  fold_right (fun f acc => match f with
+      | FPool sd nd keep =>
+          if String.eqb nd d && (0 <? keep) then
+            let gained := bal_delta c o sd + claims_net c "" o sd in
+            (if 0 <? gained then (gained * 1000000000000000000 + keep - 1) / keep + 1 else 0) + acc
+          else acc
+      | _ => acc end) 0 (k_facts c).
+Definition block_claim_clause (c : c03_case) (e : claim_row) : list string :=
+  let o := row_owner e in let d := row_denom e in
+  if (0 <=? row_delta e) || negb (is_user o) then [] else
+  if 0 <=? claims_net c "" o d + bal_delta c o d + share_credit c o d then []
+  else [String.append "block-claim-" (row_kind e)].
+
 Fixpoint dedup (l : list string) : list string :=
   match l with [] => [] | x :: r => if str_in x r then dedup r else x :: dedup r end.
 
@@ -220,13 +237,12 @@ Definition case_clauses (c : c03_case) : list string :=
     flat_map (fun e => let '(a, d, b, f) := e in coin_clause c a d b f) (k_bal c) ++
     flat_map (claim_clause c "") (k_claims c)
   else
-    (* begin / end of block: nobody signed; user balances never go down; claims other than
-       rewards (auto-compounding converts those into pool shares on the owner's standing
-       instruction) are only ever paid out to their owner *)
+    (* begin / end of block: nobody signed; user balances never go down; a user's recorded claims
+       (every kind, per denom) may only grow, be paid out to their owner, or be converted into
+       staked shares of the same owner at the pool's rate (auto-compounding of rewards) *)
     flat_map (fun e => let '(a, d, b, f) := e in
                 if (b <=? f) || negb (is_user a) then [] else ["block-coins"]) (k_bal c) ++
-    map (fun s => String.append "block-" s) (flat_map (claim_clause (mkCase (k_phase c) [] (k_bal c) (k_claims c) [] None) "reward") (k_claims c))).
-
+    flat_map (block_claim_clause c) (k_claims c)).
 Fixpoint violations_from (n : nat) (cs : list c03_case) : list (nat * list string) :=
   match cs with [] => [] | c :: r =>
     match case_clauses c with [] => violations_from (S n) r | cl => (n, cl) :: violations_from (S n) r end end.
